@@ -455,17 +455,38 @@ func classifyRace(text, prop string) (plan.Violation, bool) {
 	}
 	const pkg = "github.com/cockroachdb/apd/v3."
 	var funcs []string
+	// the innermost frame of each of the two conflicting accesses: if both are
+	// harness code the conflict is between harness variables (a harness bug,
+	// exit 2), even when frames of the code under test sit further up the stacks
+	// (e.g. a panic unwinding through them)
+	var tops []string
+	expectTop := false
 	for _, l := range strings.Split(body, "\n") {
-		l = strings.TrimSpace(l)
-		if strings.HasPrefix(l, pkg) {
-			f := strings.TrimPrefix(l, pkg)
+		t := strings.TrimSpace(l)
+		if strings.HasPrefix(t, "Read at ") || strings.HasPrefix(t, "Write at ") || strings.HasPrefix(t, "Previous read at ") || strings.HasPrefix(t, "Previous write at ") ||
+			strings.HasPrefix(t, "Atomic ") || strings.HasPrefix(t, "Previous atomic ") {
+			expectTop = true
+			continue
+		}
+		if expectTop && t != "" && !strings.HasPrefix(t, "/") {
+			tops = append(tops, t)
+			expectTop = false
+		}
+		if strings.HasPrefix(t, pkg) {
+			f := strings.TrimPrefix(t, pkg)
 			if k := strings.Index(f, "()"); k >= 0 {
 				f = f[:k]
 			}
 			funcs = append(funcs, f)
 		}
 	}
-	if len(funcs) == 0 {
+	harnessOnly := len(tops) >= 2
+	for _, t := range tops {
+		if !strings.HasPrefix(t, "apdsim/") {
+			harnessOnly = false
+		}
+	}
+	if len(funcs) == 0 || harnessOnly {
 		return plan.Violation{}, false
 	}
 	// key: the innermost frame of the code under test that is not a BigInt
